@@ -124,12 +124,27 @@ def run(ck, m):
                                     if rv['p']['l'] == dest or any(x[0] == 'call' and x[1] == bi for x in core.place_origins(b, rv['p'], stop_at_calls=True)):
                                         used = True
                     consumed.append((used, b.loc(bi)))
-        retried = any(callee(t).endswith('storage::s3_partition::retry') or 'retry' in callee(t).split('::')[-1] for b in store for _, t in b.calls())
-        ok4 = bool(consumed) and all(u for u, _ in consumed) and retried
+        retried = False
+        surfaced = False
+        for b in store:
+            for bi, t in b.calls():
+                if 'retry' in callee(t).split('::')[-1] and len(t['args']) > 1:
+                    counts = [const_val(r) if r[0] == 'const' else 'configured' for r in origins(b, t['args'][1], stop_at_calls=True)]
+                    retried = bool(counts) and all(c == 'configured' or (isinstance(c, int) and c > 0) for c in counts)
+                if callee_decl(t) in ('std::result::Result::or_else', 'std::result::Result::map_err', 'std::result::Result::unwrap_or_else'):
+                    for a in t['args']:
+                        for r in origins(b, a):
+                            if r[0] == 'closure':
+                                cb2 = P.bodies.get(r[1])
+                                if cb2 is not None:
+                                    pan = any(callee_decl(t2).startswith('std::panicking') or callee_decl(t2).startswith('std::rt::') for _, t2 in cb2.calls())
+                                    err = any(s_['k'] == 'assign' and s_['r']['k'] == 'agg' and s_['r'].get('variant') == 'Err' for bl in cb2.blocks for s_ in bl['s'])
+                                    surfaced = pan or err
+        ok4 = bool(consumed) and all(u for u, _ in consumed) and retried and surfaced
         ck.ob('C18.4', name, 'upload-result-consumed', ok4,
               '%s matches the upload result, retries and surfaces a failure' % name if ok4 else
               '%s: upload results consumed %s, retry %s — a failed PUT silently drops the snapshot while the entries were already marked Ok'
-              % (name, [u for u, _ in consumed], retried), consumed[0][1] if consumed else '')
+              % (name, [u for u, _ in consumed], '%s, surfaced after the retries: %s' % (retried, surfaced)), consumed[0][1] if consumed else '')
         # (5) layout
         wl = []
         for b in store:
